@@ -22,16 +22,19 @@ DocumentedNames(req) ==
   IF req.permsg THEN [i \in 1..Len(req.msgs) |-> req.prefix \o "_" \o req.msgs[i].lower \o ".pb.fm.go"]
   ELSE <<req.prefix \o ".pb.fm.go">>
 
-\* o = [err1, err2, names, sha1, sha2, parsed, compiled]
+\* o = [err1, err2, names, sha1, sha2, multi, err3, sha3, parsed, compiled]
 Total(o)         == o.err1 = "" /\ o.err2 = ""
 Deterministic(o) == o.err1 = o.err2 /\ o.sha1 = o.sha2
 DistinctOnce(req, o) ==
   /\ Distinct(o.names)
   /\ Len(o.names) = Len(DocumentedNames(req))
   /\ Distinct(DocumentedNames(req)) => ToSet(o.names) = ToSet(DocumentedNames(req))
+\* A request may name several files to generate (protoc a.proto b.proto); the plug-in is a per-file function: what it emits for a file
+\* is what it emits for that file alone.  o.multi = 1: a two-file request was run with this file second; sha3 = its outputs there.
+Compositional(o) == o.multi = 1 => (o.err3 = "" /\ o.sha3 = o.sha1)
 ValidGo(o)       == (\A i \in 1..Len(o.parsed) : o.parsed[i] = 1) /\ o.compiled = 1
 
-GenOK(req, o) == Total(o) /\ Deterministic(o) /\ DistinctOnce(req, o) /\ ValidGo(o)
+GenOK(req, o) == Total(o) /\ Deterministic(o) /\ Compositional(o) /\ DistinctOnce(req, o) /\ ValidGo(o)
 
 (***************************************************************************)
 (* Parameter parsing (run.go): apiversion in {v1, v2} (default v1), three   *)
